@@ -1,575 +1,502 @@
-"""C09 -- parallel == serial, bit for bit (Bernstein conditions + worker/serial expression identity)."""
+"""C09 -- parallel == serial, bit for bit (Bernstein conditions + worker/serial expression identity).
+
+All six rules read one exact symbolic execution of `srs.srs` and `fdepsd.fdepsd` (verifier/c09_sim.py): every path through the parent up
+to the statement that joins the parallel and the serial arm, with the pool executed as fork + initializer + one symbolic task.  The rules
+speak about *objects and values* (which array a store lands on - through helper calls, views and `out=` -, which term is stored, which
+process global was bound by which initializer call), never about how the worker bodies are spelled."""
 from __future__ import annotations
 
 import ast
-import copy
 
 from .core import AnchorError, Unsupported
-from .e1_srcmodel import dotted, walk_no_nested, parent, enclosing_stmt, utext
+from .e1_srcmodel import qualname_of
+from .c09_terms import World, Unsup, is_tag, is_const, subterms, contains, show, NONE, ZEROS, EMPTY
+from .c09_run import explore, join_index, live_in, compatible, equal_mod_alloc, diff_text, resolve
 
 SRS = "pyyeti/srs.py"
 FDE = "pyyeti/fdepsd.py"
-
-WORKERS = [(SRS, "_dosrs_nohist"), (SRS, "_dosrs"), (SRS, "_dosrs_nohist_ic"), (SRS, "_dosrs_ic"), (FDE, "_dofde")]
-
-# library / repo callables whose result is a fresh object and which do not mutate their array arguments
-PURE_CALLS = {
-    "signal.lfilter": "scipy.signal.lfilter returns a new array (no `zi`/out argument is passed)",
-    "np.var": "reduction", "np.sum": "reduction", "abs": "elementwise, new array", "np.abs": "elementwise, new array",
-    "cyclecount.findap": "repo: reads its argument, returns indices", "cyclecount.rainflow": "repo: reads its argument, returns a new table",
-    "print": "stdout only; not an output of the computation", "range": "", "len": "",
-}
+ENTRIES = [(SRS, "srs"), (FDE, "fdepsd")]
+C_DOUBLE = ("ext", "ctypes.c_double")
+FLOAT64 = (None, ("ext", "builtins.float"), ("ext", "numpy.float64"), ("ext", "numpy.double"), ("c", "str", "float64"), ("c", "str", "f8"),
+           ("c", "str", "d"), ("c", "str", "float"))
+FILE_CALLS = ("open", "write", "writelines", "save", "savez", "savetxt", "dump", "tofile", "to_csv", "to_pickle")
 
 
-def module_globals(ctx, rel):
-    """names assigned at module level to None and rebound by an initializer through `global`"""
-    m = ctx.src.mod(rel)
-    g = set()
-    for st in m.tree.body:
-        if isinstance(st, ast.Assign) and isinstance(st.value, ast.Constant) and st.value.value is None:
-            for t in st.targets:
-                if isinstance(t, ast.Name):
-                    g.add(t.id)
-    return g
+# ------------------------------------------------------------------------------------------------------------------- analysis (cached)
+class Analysis:
+    def __init__(self, ctx):
+        self.world = World(ctx, [SRS, FDE])
+        self.entries = {}
+        self.pgw = set()
+        for rel, q in ENTRIES:
+            fn = self.world.func(rel, q)
+            if fn is None:
+                raise AnchorError(f"function {q} not found in {rel}")
+            K = join_index(self.world, rel, fn)
+            live = live_in(fn.body[K + 1:], set())
+            leaves = explore(self.world, rel, q, K)
+            if not leaves:
+                raise Unsup(f"{q}: no live path")
+            self.entries[q] = (rel, fn, K, live, leaves)
+            for lf in leaves:
+                self.pgw |= lf.sim.pgw
+        if not any(lf.sim.launches for _, _, _, _, lvs in self.entries.values() for lf in lvs):
+            raise AnchorError("no pool launch (Pool + imap*/map) reached from srs() or fdepsd()")
 
 
-def task_index(fn):
-    """(j, rest) = args  -> name of the task index, list of other unpacked names"""
-    for st in fn.body:
-        if isinstance(st, ast.Assign) and isinstance(st.value, ast.Name) and st.value.id == fn.args.args[0].arg \
-                and isinstance(st.targets[0], ast.Tuple):
-            t = st.targets[0]
-            if isinstance(t.elts[0], ast.Name):
-                rest = [n.id for n in ast.walk(t) if isinstance(n, ast.Name)][1:]
-                return t.elts[0].id, rest, st
-    raise AnchorError(f"{fn.name}: `(j, (...)) = args` unpacking not found")
+def analysis(ctx):
+    a = getattr(ctx, "_c09", None)
+    if a is None:
+        try:
+            a = Analysis(ctx)
+        except Exception as e:  # noqa - re-raised by every rule so that each reports it
+            a = e
+        ctx._c09 = a
+    if isinstance(a, Exception):
+        raise a
+    return a
 
 
-def _index_elts(sub):
-    s = sub.slice
-    return list(s.elts) if isinstance(s, ast.Tuple) else [s]
+class Agg:
+    """one obligation per distinct text; it holds when it held on every path on which it was met"""
 
+    def __init__(self, ctx):
+        self.ctx = ctx
+        self.d = {}
 
-def _is_store(sub):
-    p = parent(sub)
-    if isinstance(sub.ctx, ast.Store):
-        return True
-    if isinstance(p, ast.AugAssign) and p.target is sub:
-        return True
-    return False
+    def add(self, text, ok, node=None, detail=None, nontrivial=True):
+        cur = self.d.get(text)
+        if cur is None:
+            self.d[text] = [bool(ok), node, None if ok else detail, nontrivial]
+        elif cur[0] and not ok:
+            self.d[text] = [False, node, detail, nontrivial]
 
-
-def global_accesses(fn, gnames):
-    """list of (global, node, kind) kind in {'sub-load','sub-store','shape','bare'}"""
-    out = []
-    local_assigned = {n.id for n in ast.walk(fn) if isinstance(n, ast.Name) and isinstance(n.ctx, ast.Store)}
-    for n in ast.walk(fn):
-        if isinstance(n, ast.Name) and n.id in gnames and n.id not in local_assigned:
-            p = parent(n)
-            if isinstance(p, ast.Subscript) and p.value is n:
-                out.append((n.id, p, "sub-store" if _is_store(p) else "sub-load"))
-            elif isinstance(p, ast.Attribute) and p.attr == "shape":
-                out.append((n.id, p, "shape"))
+    def flush(self):
+        for text, (ok, node, detail, nt) in self.d.items():
+            if ok:
+                self.ctx.ok(text, node, None, nt)
             else:
-                out.append((n.id, n, "bare"))
-    return out
+                self.ctx.fail(text, node, detail)
 
 
+def wname(L):
+    f = L.func
+    return f[2] if is_tag(f, "fn") else show(f)
+
+
+def label(sim, oid):
+    labs = sim.heap[oid].labels
+    for l in labs:
+        if l.endswith("_"):
+            return l
+    return labs[0] if labs else f"object created at line {getattr(sim.heap[oid].node, 'lineno', '?')}"
+
+
+def src(node):
+    try:
+        return ast.unparse(node).split("\n")[0][:70]
+    except Exception:  # noqa
+        return "?"
+
+
+def task_events(sim, L):
+    return [e for e in sim.events if e.ctx == ("task", L.lid)]
+
+
+def shared(sim, L, oid):
+    """an object that exists outside the task (not created by the task itself)"""
+    return L.fid not in sim.heap[oid].born_frames
+
+
+def lv_positions(sel, lv):
+    return [i for i, x in enumerate(sel) if x == lv]
+
+
+def comparable_diff(a, b):
+    return a != b and (contains(a, b) or contains(b, a) or (is_const(a) and is_const(b)))
+
+
+def launches(an):
+    for q, (rel, fn, K, live, leaves) in an.entries.items():
+        for lf in leaves:
+            for L in lf.sim.launches:
+                yield q, lf, L
+
+
+# ------------------------------------------------------------------------------------------------------------------- R1
 def r1_disjoint_writes(ctx):
-    written = {}   # global -> set of axis positions of j over all accesses
-    acc_all = []
-    for rel, q in WORKERS:
-        fn = ctx.src.func(rel, q)
-        g = module_globals(ctx, rel)
-        j, rest, ust = task_index(fn)
-        # j never reassigned
-        stores = [n for n in ast.walk(fn) if isinstance(n, ast.Name) and n.id == j and isinstance(n.ctx, ast.Store)]
-        ctx.check(len(stores) == 1, f"{q}: the task index `{j}` is bound once (from args) and never reassigned", fn)
-        for gname, node, kind in global_accesses(fn, g):
-            acc_all.append((rel, q, fn, j, gname, node, kind))
-    wr = {(rel, gname) for rel, q, fn, j, gname, node, kind in acc_all if kind == "sub-store"}
-    for rel, q, fn, j, gname, node, kind in acc_all:
-        if (rel, gname) not in wr:
-            continue
-        if kind == "shape":
-            ctx.ok(f"{q}: `{ast.unparse(node)}` reads only the shape of written array {gname}", node, nontrivial=False)
-            continue
-        if kind == "bare":
-            ctx.fail(f"{q}: written shared array {gname} is used whole (not through the task index)", node, ast.unparse(enclosing_stmt(node)))
-            continue
-        elts = _index_elts(node)
-        pos = [i for i, e in enumerate(elts) if isinstance(e, ast.Name) and e.id == j]
-        ok = len(pos) == 1
-        ctx.check(ok, f"{q}: access `{ast.unparse(node)}` ({'store' if kind == 'sub-store' else 'load'}) to written shared array "
-                      f"{gname} carries the task index `{j}`", node)
-        if ok:
-            # axis position counted from the front, with full-slice prefix allowed: HIST_[:, :, j]
-            written.setdefault((rel, gname), set()).add((pos[0], len(elts)))
-    for (rel, gname), axes in sorted(written.items()):
-        ax = {a for a, n in axes}
-        ok = len(ax) == 1
-        ctx.check(ok, f"{gname}: the task index is always on the same axis ({sorted(ax)}) -> tasks touch disjoint slices", rel + ":1",
-                  None if ok else sorted(axes))
-    # the task-index axis is the axis of length LF in the parent's allocation
-    shapes = {}
-    for rel, q in ((SRS, "srs"), (FDE, "fdepsd")):
-        pfn = ctx.src.func(rel, q)
-        for st in walk_no_nested(pfn):
-            if isinstance(st, ast.Assign) and isinstance(st.targets[0], ast.Name) and isinstance(st.value, ast.Tuple) \
-                    and len(st.value.elts) == 2 and isinstance(st.value.elts[0], ast.Call) \
-                    and (dotted(st.value.elts[0].func) or "").endswith("createSharedArray") and isinstance(st.value.elts[1], ast.Tuple):
-                dims = [ast.unparse(e) for e in st.value.elts[1].elts]
-                shapes.setdefault((rel, st.targets[0].id.lower()), set()).add(tuple(dims))
-    for (rel, gname), axes in sorted(written.items()):
-        key = (rel, gname.rstrip("_").lower())
-        shp = shapes.get(key)
-        if not shp:
-            ctx.error(f"{gname}: allocation shape in the parent", rel + ":1", sorted(shapes))
-            continue
-        for dims in shp:
-            for a, n in axes:
-                ok = n <= len(dims) and dims[a] == "LF"
-                ctx.check(ok, f"{gname}: the task index sits on the axis of length LF of the parent's allocation {dims}", rel + ":1",
-                          None if ok else {"axis": a, "dims": dims})
-    ctx.check(len(written) >= 5, "written shared arrays bound: SRSmax_, HIST_, ASV_, BinAmps_, Count_", SRS + ":1",
-              sorted(g for _, g in written), nontrivial=False)
+    an = analysis(ctx)
+    ag = Agg(ctx)
+    written_labels = set()
+    for q, lf, L in launches(an):
+        sim, w = lf.sim, wname(L)
+        evs = [e for e in task_events(sim, L) if shared(sim, L, e.oid)]
+        wobjs = {e.oid for e in evs}
+        axes = {}
+        for e in evs:
+            lab = label(sim, e.oid)
+            written_labels.add((q, lab))
+            pos = lv_positions(e.sel, L.lv) if e.kind == "store" else []
+            ok = len(pos) == 1 and not any(contains(x, L.lv) for i, x in enumerate(e.sel) if i != pos[0])
+            ag.add(f"{w}: store `{src(e.node)}` into shared array {lab} is made at the task index (own slice only)", ok, e.node,
+                   {"selection": [show(x) for x in e.sel], "how": e.how or e.note})
+            if ok:
+                axes.setdefault(e.oid, set()).add((pos[0], e.shape))
+        for r in sim.reads:
+            if r.ctx != ("task", L.lid) or r.oid not in wobjs:
+                continue
+            lab = label(sim, r.oid)
+            pos = lv_positions(r.sel, L.lv)
+            ok = len(pos) == 1
+            ag.add(f"{w}: read `{src(r.node)}` of written shared array {lab} is made at the task index", ok, r.node,
+                   {"selection": [show(x) for x in r.sel]})
+            if ok:
+                axes.setdefault(r.oid, set()).add((pos[0], r.shape))
+        for oid, ax in axes.items():
+            lab = label(sim, oid)
+            ps = {p for p, _ in ax}
+            ok = len(ps) == 1
+            ag.add(f"{w}: the task index is always on the same axis of {lab} -> tasks touch disjoint slices", ok, L.node, sorted(ps))
+            if not ok:
+                continue
+            p = next(iter(ps))
+            for _, shp in ax:
+                shp = shp if shp is not None else sim.heap[oid].shape
+                if is_tag(shp, "tuple") and p < len(shp) - 1 and L.count is not None:
+                    dim = lf.term(shp[1 + p])
+                    cnt = lf.term(L.count)
+                    if dim == cnt:
+                        ag.add(f"{w}: the task-index axis of {lab} has one entry per task", True, L.node)
+                    elif comparable_diff(dim, cnt):
+                        ag.add(f"{w}: the task-index axis of {lab} has one entry per task", False, L.node, {"axis length": show(dim), "tasks": show(cnt)})
+                    else:
+                        ctx.note(f"{w}: length of the task axis of {lab} ({show(dim)[:80]}) not compared with the number of tasks ({show(cnt)[:80]})")
+    ag.flush()
+    labs = sorted({l for _, l in written_labels})
+    ctx.check(len(labs) >= 5, "written shared arrays bound: SRSmax_, HIST_, ASV_, BinAmps_, Count_", SRS + ":1", labs, nontrivial=False)
 
 
-def _aliases(fn, roots):
-    """local names that may alias (be a view of) one of `roots` -- transitive closure over simple assignments"""
-    VIEW_ATTRS = {"T", "real", "imag", "flat"}
-    VIEW_METHODS = {"reshape", "ravel", "view", "transpose", "squeeze", "swapaxes"}
-    al = set(roots)
-    changed = True
-    while changed:
-        changed = False
-        for st in ast.walk(fn):
-            if isinstance(st, ast.Assign) and len(st.targets) == 1 and isinstance(st.targets[0], ast.Name):
-                v = st.value
-                base = None
-                if isinstance(v, ast.Name):
-                    base = v.id
-                elif isinstance(v, ast.Subscript) and isinstance(v.value, ast.Name):
-                    # basic slicing gives a view; indexing with a scalar task index on a 1-d array gives a scalar, which
-                    # cannot be mutated in place -- both treated as alias (conservative)
-                    base = v.value.id
-                elif isinstance(v, ast.Attribute) and isinstance(v.value, ast.Name) and v.attr in VIEW_ATTRS:
-                    base = v.value.id
-                elif isinstance(v, ast.Call) and isinstance(v.func, ast.Attribute) and isinstance(v.func.value, ast.Name) \
-                        and v.func.attr in VIEW_METHODS:
-                    base = v.func.value.id
-                if base in al and st.targets[0].id not in al:
-                    al.add(st.targets[0].id)
-                    changed = True
-    return al
-
-
+# ------------------------------------------------------------------------------------------------------------------- R2
 def r2_readonly(ctx):
-    for rel, q in WORKERS:
-        fn = ctx.src.func(rel, q)
-        g = module_globals(ctx, rel)
-        acc = global_accesses(fn, g)
-        wr = {gname for gname, node, kind in acc if kind == "sub-store"}
-        ro = {gname for gname, node, kind in acc} - wr
-        al = _aliases(fn, ro)
-        n = 0
-        for node in ast.walk(fn):
-            tgt = None
-            if isinstance(node, ast.AugAssign):
-                tgt = node.target
-            elif isinstance(node, ast.Assign):
-                for t in node.targets:
-                    if isinstance(t, ast.Subscript):
-                        tgt = t
-            elif isinstance(node, ast.Call):
-                for kw in node.keywords:
-                    if kw.arg == "out":
-                        tgt = kw.value
-                if isinstance(node.func, ast.Attribute) and node.func.attr in ("sort", "fill", "resize", "itemset", "put", "partition") \
-                        and isinstance(node.func.value, ast.Name):
-                    tgt = node.func.value
-            if tgt is None:
+    an = analysis(ctx)
+    ag = Agg(ctx)
+    for q, lf, L in launches(an):
+        sim, w = lf.sim, wname(L)
+        tevs = task_events(sim, L)
+        touched = {e.oid for e in tevs} | {r.oid for r in sim.reads if r.ctx == ("task", L.lid)}
+        written = {e.oid for e in tevs}
+        for e in tevs:
+            lab = label(sim, e.oid)
+            if e.kind == "escape":
+                ok = not shared(sim, L, e.oid)
+                ag.add(f"{w}: `{src(e.node)}` hands {'shared array ' + lab if not ok else 'only a task-local array'} to the foreign routine {e.note}",
+                       ok, e.node)
                 continue
-            base = tgt
-            while isinstance(base, (ast.Subscript, ast.Attribute)):
-                base = base.value
-            if not isinstance(base, ast.Name):
+            if e.how == "store" and shared(sim, L, e.oid):
+                continue        # plain stores into outputs are R1's business
+            if not shared(sim, L, e.oid):
+                ok, what = True, "a task-local array (fresh result of a call inside the task)"
+            else:
+                ok = len(lv_positions(e.sel, L.lv)) == 1
+                what = f"the task's own slice of {lab}" if ok else f"shared array {lab} outside the task's own slice"
+            ag.add(f"{w}: in-place operation `{src(e.node)}` touches {what if ok else 'only task-local data or the own slice'}", ok, e.node,
+                   None if ok else what)
+        for oid in sorted(touched - written):
+            if not shared(sim, L, oid) or sim.heap[oid].kind not in ("raw", "array"):
                 continue
-            n += 1
-            bad = base.id in al
-            # an in-place op on a local is fine when that local was bound to a fresh object
-            ctx.check(not bad, f"{q}: in-place operation `{ast.unparse(node)[:60]}` does not touch a read-only shared input "
-                               f"({', '.join(sorted(ro))}) or a view of one", node,
-                      None if not bad else {"aliases": sorted(al)})
-        # shared inputs handed to callees: only to functions known not to mutate them
-        for node in ast.walk(fn):
-            if isinstance(node, ast.Call):
-                d = dotted(node.func)
-                args = list(node.args) + [k.value for k in node.keywords]
-                for a in args:
-                    if isinstance(a, ast.Name) and a.id in al:
-                        ok = d in PURE_CALLS
-                        ctx.check(ok, f"{q}: shared input `{a.id}` is passed whole only to a non-mutating callee (`{d}`)", node)
-        # fresh-ness of the array that does get mutated: resphist = signal.lfilter(...)
-        for node in ast.walk(fn):
-            if isinstance(node, ast.AugAssign) and isinstance(node.target, ast.Name):
-                nm = node.target.id
-                defs = [s for s in ast.walk(fn) if isinstance(s, ast.Assign) and any(isinstance(t, ast.Name) and t.id == nm for t in s.targets)]
-                ok = bool(defs) and all(isinstance(s.value, ast.Call) and dotted(s.value.func) in PURE_CALLS for s in defs)
-                ctx.check(ok, f"{q}: `{nm}` mutated by `{ast.unparse(node)[:50]}` is a fresh result of a library call", node)
+            lab = label(sim, oid)
+            ag.add(f"{w}: shared input {lab} is read-only in the task and in every helper it calls (no store, augmented assignment, out=, "
+                   "mutating method or foreign routine reaches it or a view of it)", True, L.node)
+    ag.flush()
+
+
+# ------------------------------------------------------------------------------------------------------------------- R3
+def _bad_calls(fn):
+    bad = []
+    for n in ast.walk(fn):
+        if isinstance(n, ast.Call):
+            fx = n.func
+            last = fx.attr if isinstance(fx, ast.Attribute) else (fx.id if isinstance(fx, ast.Name) else "")
+            root = fx
+            while isinstance(root, ast.Attribute):
+                root = root.value
+            if last in FILE_CALLS or (isinstance(root, ast.Name) and root.id in ("os", "shutil", "subprocess") and isinstance(fx, ast.Attribute)):
+                bad.append(ast.unparse(fx))
+    return bad
 
 
 def r3_no_other_channel(ctx):
-    for rel, q in WORKERS:
-        fn = ctx.src.func(rel, q)
-        g = module_globals(ctx, rel)
-        ok = not any(isinstance(n, (ast.Global, ast.Nonlocal)) for n in ast.walk(fn))
-        ctx.check(ok, f"{q}: declares no global/nonlocal (cannot rebind module state)", fn)
-        bad = []
-        for n in ast.walk(fn):
-            if isinstance(n, ast.Call):
-                d = dotted(n.func) or ""
-                if d in ("open",) or d.endswith(".write") or d.endswith(".save") or d.endswith(".dump") or d.startswith("os."):
-                    bad.append(d)
-            if isinstance(n, (ast.Attribute,)) and isinstance(n.ctx, ast.Store):
-                bad.append("attribute store " + ast.unparse(n))
-        ctx.check(not bad, f"{q}: writes no file and no object attribute", fn, bad)
-        rets = [n for n in ast.walk(fn) if isinstance(n, ast.Return) and n.value is not None]
-        ctx.check(not rets, f"{q}: returns nothing (results travel only through the shared arrays)", fn)
-    # parent side: results of imap_unordered are discarded
-    for rel, q in ((SRS, "srs"), (FDE, "fdepsd")):
-        fn = ctx.src.func(rel, q)
-        loops = [n for n in walk_no_nested(fn) if isinstance(n, ast.For) and isinstance(n.iter, ast.Call)
-                 and isinstance(n.iter.func, ast.Attribute) and n.iter.func.attr.startswith("imap")]
-        if not loops:
-            raise AnchorError(f"{q}: pool.imap* loop not found")
-        for lp in loops:
-            ok = len(lp.body) == 1 and isinstance(lp.body[0], ast.Pass) and isinstance(lp.target, ast.Name)
-            used = [n for n in ast.walk(fn) if isinstance(n, ast.Name) and n.id == lp.target.id and isinstance(n.ctx, ast.Load)] \
-                if isinstance(lp.target, ast.Name) else [1]
-            ctx.check(ok and not used, f"{q}: the values yielded by `{ast.unparse(lp.iter.func)}` are discarded "
-                                       "(arrival order cannot reach any output)", lp)
-            # task list is zip(range(LF), repeat(args, LF))
-            a = lp.iter.args
-            ok = len(a) == 2 and ast.unparse(a[1]).replace(" ", "") == "zip(range(LF),it.repeat(args,LF))"
-            ctx.check(ok, f"{q}: one task per frequency index: zip(range(LF), repeat(args, LF))", lp)
-    # ncpu flows only to processes=
-    for rel, q in ((SRS, "srs"), (FDE, "fdepsd")):
-        fn = ctx.src.func(rel, q)
-        uses = [n for n in walk_no_nested(fn) if isinstance(n, ast.Name) and n.id == "ncpu" and isinstance(n.ctx, ast.Load)]
-        ok = True
-        for u in uses:
-            p = parent(u)
-            if isinstance(p, ast.keyword) and p.arg in ("processes", "ncpu"):
-                continue
-            ok = False
-        ctx.check(ok and uses, f"{q}: the worker count reaches only `processes=` (and the reported ncpu)", fn,
-                  [ast.unparse(parent(u)) for u in uses])
-
-
-def _pool_sites(fn):
-    out = []
-    for n in walk_no_nested(fn):
-        if isinstance(n, ast.With):
-            for it in n.items:
-                c = it.context_expr
-                if isinstance(c, ast.Call) and dotted(c.func) == "mp.Pool":
-                    out.append((n, c))
-    return out
-
-
-def r4_lifecycle(ctx):
-    for rel, q in ((SRS, "srs"), (FDE, "fdepsd")):
-        fn = ctx.src.func(rel, q)
-        g = module_globals(ctx, rel)
-        sites = _pool_sites(fn)
-        if not sites:
-            raise AnchorError(f"{q}: mp.Pool site not found")
-        for w, call in sites:
-            kw = {k.arg: k.value for k in call.keywords}
-            init = kw.get("initializer")
-            ia = kw.get("initargs")
-            if not (isinstance(init, ast.Name) and isinstance(ia, ast.Name)):
-                ctx.error(f"{q}: Pool(initializer=, initargs=) shape", call)
-                continue
-            ifn = ctx.src.func(rel, init.id)
-            params = [a.arg for a in ifn.args.args]
-            # globals bound by the initializer, in parameter order
-            bound = {}
-            for st in ast.walk(ifn):
-                if isinstance(st, ast.Assign) and isinstance(st.targets[0], ast.Name) and st.targets[0].id in g:
-                    src = [n.id for n in ast.walk(st.value) if isinstance(n, ast.Name) and n.id in params]
-                    if src:
-                        bound[st.targets[0].id] = src[0]
-            # the gvars tuple reaching this site (same block, nearest preceding assignment)
-            blk = _block_of(w)
-            gv = None
-            for st in blk[: blk.index(w)][::-1]:
-                if isinstance(st, ast.Assign) and isinstance(st.targets[0], ast.Name) and st.targets[0].id == ia.id \
-                        and isinstance(st.value, ast.Tuple):
-                    gv = [ast.unparse(e) for e in st.value.elts]
+    an = analysis(ctx)
+    ag = Agg(ctx)
+    for q, lf, L in launches(an):
+        sim, w = lf.sim, wname(L)
+        gw = [(k, n) for k, c, n in sim.gwrites if c == ("task", L.lid)]
+        ag.add(f"{w}: rebinds no module global (the task and its helpers)", not gw, gw[0][1] if gw else L.node, [k[1] for k, _ in gw])
+        bad = [b for f in L.fns for b in _bad_calls(f)]
+        ast_st = [n for c, n in sim.attr_stores if c == ("task", L.lid)]
+        ag.add(f"{w}: writes no file and no object attribute (the task and its helpers)", not bad and not ast_st, L.node,
+               bad + [ast.unparse(n) for n in ast_st])
+        ag.add(f"{w}: returns nothing (results travel only through the shared arrays)", L.ret == NONE, L.node,
+               None if L.ret == NONE else show(lf.term(L.ret))[:200])
+        el = L.elem
+        ok = is_tag(el, "tuple") and len(el) == 3 and el[1] == L.lv and not contains(sim.snap(el[2], record=False), L.lv)
+        ag.add(f"{q}: each task is (index, arguments) with the index running over the task range and the arguments the same for every task "
+               f"[{w}]", ok, L.node, None if ok else show(sim.snap(el, record=False))[:200])
+        pool = sim.pools[L.pid]
+        T = pool.processes
+        if T != NONE and not is_const(T):
+            where = []
+            if contains(sim.snap(L.elem, record=False), T):
+                where.append("task arguments")
+            if contains(sim.snap(pool.initargs, record=False), T):
+                where.append("initargs")
+            for e in sim.events:
+                if e.value is not None and contains(e.value, T):
+                    where.append(f"value stored by `{src(e.node)}`")
                     break
-            ok = gv is not None and len(gv) == len(params)
-            ctx.check(ok, f"{q}: initargs `{ia.id}` has one entry per parameter of {init.id}", call, {"initargs": gv, "params": params})
-            if not ok:
+            for n in an.entries[q][3]:
+                v = lf.fr.locals.get(n)
+                if v is None:
+                    continue
+                sv = sim.snap(v, record=False)
+                if sv != T and contains(sv, T):
+                    where.append(f"local `{n}`")
+            ag.add(f"{q}: the worker count reaches only `processes` (and a local that reports it), no task argument, shared array or output [{w}]",
+                   not where, pool.node, where)
+    for q, (rel, fn, K, live, leaves) in an.entries.items():
+        for lf in leaves:
+            if not lf.sim.launches:
                 continue
-            # positional agreement by name: parameter `wn` <- WN, `sig` <- SIG, ...
-            for p, a in zip(params, gv):
-                okp = p.lower().replace("_", "") == a.lower().replace("_", "")
-                ctx.check(okp, f"{q}: initializer parameter `{p}` receives `{a}`", call)
-            # func used at this site and the globals it needs
-            lp = [n for n in w.body if isinstance(n, ast.For)]
-            fexpr = lp[0].iter.args[0] if lp else None
-            fdefs = []
-            if isinstance(fexpr, ast.Name):
-                for st in blk[: blk.index(w)][::-1]:
-                    if isinstance(st, ast.Assign) and isinstance(st.targets[0], ast.Name) and st.targets[0].id == fexpr.id:
-                        v = st.value
-                        if isinstance(v, ast.IfExp):
-                            fdefs = [(v.body.id, ast.unparse(v.test), True), (v.orelse.id, ast.unparse(v.test), False)]
-                        elif isinstance(v, ast.Name):
-                            fdefs = [(v.id, None, None)]
-                        break
-            if not fdefs:
-                ctx.error(f"{q}: worker function selection at the Pool site", w)
-                continue
-            for wname, test, branch in fdefs:
-                wfn = ctx.src.func(rel, wname)
-                used = {gname for gname, node, kind in global_accesses(wfn, g)}
-                missing = used - set(bound)
-                ctx.check(not missing, f"{q}: every shared global used by worker {wname} ({', '.join(sorted(used))}) is bound by "
-                                       f"the initializer {init.id} registered at this Pool site", call, sorted(missing))
-                if "HIST_" in used:
-                    ok = test == "getresp" and branch is True
-                    ctx.check(ok, f"{q}: the worker that stores histories ({wname}) is selected only when getresp "
-                                  "(HIST_ is bound only then)", call)
-            # parent-side ordering: writes to shared buffers before the pool, reads after
-            pre = blk[: blk.index(w)]
-            post = blk[blk.index(w) + 1:]
-            for st in post:
-                for n in ast.walk(st):
-                    if isinstance(n, ast.Call) and dotted(n.func) in ("copyToSharedArray", "srs.copyToSharedArray", "createSharedArray",
-                                                                      "srs.createSharedArray"):
-                        ctx.fail(f"{q}: shared buffer created after the pool", n)
-                    if isinstance(n, ast.AugAssign):
-                        base = n.target
-                        while isinstance(base, (ast.Subscript, ast.Attribute)):
-                            base = base.value
-                        if isinstance(base, ast.Name) and base.id in ("a",):
-                            ctx.fail(f"{q}: parent writes a shared buffer after the pool started", n)
-            reads_pre = [n for st in pre for n in ast.walk(st) if isinstance(n, ast.Call) and
-                         dotted(n.func) in ("np.frombuffer", "_to_np_array") and
-                         any(isinstance(x, ast.Name) and x.id in ("SRSmax", "HIST", "ASV", "Count") for x in ast.walk(n))]
-            ctx.check(not reads_pre, f"{q}: result buffers are read (np.frombuffer) only after the pool block", w,
-                      [ast.unparse(r) for r in reads_pre])
-            reads_post = [n for st in post for n in ast.walk(st) if isinstance(n, ast.Call) and
-                          dotted(n.func) in ("np.frombuffer", "_to_np_array")]
-            ctx.check(bool(reads_post), f"{q}: results are taken from the shared buffers after the `with` block has exhausted the iterator", w)
-            # the iterator is exhausted inside the with
-            ctx.check(bool(lp), f"{q}: the result iterator is consumed inside the `with mp.Pool` block", w)
-            # the signal copied to shared memory is the one the serial loop uses
-            sigdef = [st for st in pre if isinstance(st, ast.Assign) and isinstance(st.targets[0], ast.Name) and st.targets[0].id == "SIG"]
-            ok = bool(sigdef) and "copyToSharedArray(sig)" in ast.unparse(sigdef[-1].value) and \
-                not any(isinstance(st, ast.Assign) and any(isinstance(t, ast.Name) and t.id == "sig" for t in st.targets)
-                        for st in pre[pre.index(sigdef[-1]):])
-            ctx.check(ok, f"{q}: SIG is a copy of the `sig` that reaches the serial loop (no rebinding in between)", w)
+            leak = []
+            for n in live:
+                v = lf.fr.locals.get(n)
+                if v is not None and any(is_tag(x, "relem", "results") for x in subterms(lf.sim.snap(v, record=False))):
+                    leak.append(n)
+            if lf.ret is not None and any(is_tag(x, "relem", "results") for x in subterms(lf.sim.snap(lf.ret, record=False))):
+                leak.append("return value")
+            for e in lf.sim.events:
+                if e.value is not None and any(is_tag(x, "relem", "results") for x in subterms(e.value)):
+                    leak.append(src(e.node))
+            for L in lf.sim.launches:
+                ag.add(f"{q}: the values yielded by the pool's result iterator reach no output (arrival order cannot matter) [{wname(L)}]",
+                       not leak, L.node, leak)
+    ag.flush()
 
 
+# ------------------------------------------------------------------------------------------------------------------- R4
+def r4_lifecycle(ctx):
+    an = analysis(ctx)
+    ag = Agg(ctx)
+    for q, (rel, fn, K, live, leaves) in an.entries.items():
+        for lf in leaves:
+            sim = lf.sim
+            by_lid = {L.lid: L for L in sim.launches}
+            # ---- process globals: bound by the initializer of this very launch (or never bound anywhere in the parent process)
+            for key, prov, c, node, val, frames in sim.preads:
+                g = key[1]
+                if c[0] in ("task", "init") and c[1] in by_lid:
+                    L = by_lid[c[1]]
+                    who = wname(L) if c[0] == "task" else "initializer of " + wname(L)
+                    own = prov == "bound:%s" % (("init", L.lid),)
+                    stale = (not own) and key in an.pgw
+                    ag.add(f"{who}: process global {g} is bound by the initializer registered for the same pool on every path on which the "
+                           "task reads it (or is never assigned in the parent process)", not stale, node,
+                           None if not stale else f"{g} is not (re)bound for this launch but is assigned in the parent process on another path: "
+                                                  "a value left over from an earlier call is used")
+                    ag.add(f"{who}: reads {g} " + ("as bound by its own initializer" if own else "as left by the module (None)"), True, node,
+                           nontrivial=own)
+                elif c[0] == "parent":
+                    own = prov.startswith("bound:")
+                    stale = (not own) and key in an.pgw
+                    ag.add(f"{qualname_of(node) or q}: process global {g} read in the parent process was bound during the same call", not stale, node,
+                           None if not stale else f"{g} is read before this call binds it, and the parent process assigns it on another path: "
+                                                  "a value left over from an earlier call is used")
+            for c, node, what in sim.none_uses:
+                who = wname(by_lid[c[1]]) if c[0] in ("task", "init") and c[1] in by_lid else q
+                ag.add(f"{who}: every shared array the task uses was bound for this launch (`{src(node)}`)", False, node, what + " (global not bound by the initializer on this path)")
+            for L in sim.launches:
+                w = wname(L)
+                pool = sim.pools[L.pid]
+                touched = {e.oid for e in sim.events if e.ctx in (("task", L.lid), ("init", L.lid))} | \
+                          {r.oid for r in sim.reads if r.ctx in (("task", L.lid), ("init", L.lid))}
+                touched = {o for o in touched if shared(sim, L, o)}
+                ie = [e for e in sim.events if e.ctx == ("init", L.lid) and e.oid in touched and sim.heap[e.oid].born_ctx[0] == "parent"]
+                ag.add(f"{q}: the pool initializer only binds views, it writes no shared memory [{w}]", not ie, ie[0].node if ie else pool.node,
+                       [src(e.node) for e in ie])
+                hi = L.drain_seq if L.drained else float("inf")
+                pw = [e for e in sim.events if e.ctx[0] == "parent" and e.oid in touched and L.seq0 < e.seq < hi]
+                ag.add(f"{q}: parent writes to the shared buffers precede the tasks (none between launch and drain) [{w}]", not pw,
+                       pw[0].node if pw else L.node, [src(e.node) for e in pw])
+                written = {e.oid for e in sim.events if e.ctx == ("task", L.lid)}
+                pr = [r for r in sim.reads if r.ctx[0] == "parent" and r.oid in written and L.seq0 < r.seq < hi]
+                ag.add(f"{q}: result buffers are read by the parent only after every task has finished [{w}]", not pr,
+                       pr[0].node if pr else L.node, [src(r.node) for r in pr])
+                ok = L.drained and (pool.end_seq is None or L.drain_seq < pool.end_seq)
+                ag.add(f"{q}: the result iterator is exhausted before the pool is shut down [{w}]", ok, L.node,
+                       None if ok else ("never consumed" if not L.drained else "consumed after the pool was terminated"))
+                post = [r for r in sim.reads if r.ctx[0] == "parent" and r.oid in written and r.seq > hi] if L.drained else []
+                outs = any(any(is_tag(x, "ref") and x[1] in written for x in subterms(v)) for v in lf.fr.locals.values()
+                           if isinstance(v, tuple)) or any(any(is_tag(x, "ref") and x[1] in written for x in subterms(v))
+                                                           for o in sim.heap.values() for v in o.entries.values())
+                ag.add(f"{q}: the outputs are taken from the shared buffers after the tasks [{w}]", bool(post) or outs or lf.ret is not None, L.node)
+    ag.flush()
+
+
+# ------------------------------------------------------------------------------------------------------------------- R4b
 def r4b_shared_buffer_io(ctx):
     """the parent writes a shared RawArray through the same kind of numpy view the workers read it with (np.frombuffer, float64):
     a raw byte copy would reinterpret a non-float64 input"""
-    fn = ctx.src.func(SRS, "copyToSharedArray")
-    views = {}
-    for st in walk_no_nested(fn):
-        if isinstance(st, ast.Assign) and isinstance(st.targets[0], ast.Name):
-            for c in ast.walk(st.value):
-                if isinstance(c, ast.Call) and dotted(c.func) == "np.frombuffer" and c.args and isinstance(c.args[0], ast.Name):
-                    dt = [k for k in c.keywords if k.arg == "dtype"] + list(c.args[1:2])
-                    views[st.targets[0].id] = (c.args[0].id, ast.unparse(dt[0].value if isinstance(dt[0], ast.keyword) else dt[0]) if dt else None)
-    stores = [st for st in walk_no_nested(fn) if isinstance(st, ast.Assign) and isinstance(st.targets[0], ast.Subscript)
-              and isinstance(st.targets[0].value, ast.Name) and st.targets[0].value.id in views]
-    ok = len(stores) == 1 and ast.unparse(stores[0].value) == fn.args.args[0].arg and views[stores[0].targets[0].value.id][1] in (None, "float", "np.float64")
-    ctx.check(ok, "copyToSharedArray fills the shared buffer by assigning the input to a float64 np.frombuffer view (numpy converts the dtype)", fn,
-              {"views": views, "stores": [ast.unparse(s) for s in stores]})
-    raw = [ast.unparse(c.func) for c in ast.walk(fn) if isinstance(c, ast.Call) and (dotted(c.func) or "").split(".")[-1] in
-           ("memmove", "memcpy", "memset", "from_buffer_copy", "tobytes", "frombytes")]
-    ctx.check(not raw, "copyToSharedArray performs no raw byte copy into the shared buffer", fn, raw)
-    ra = [c for c in ast.walk(fn) if isinstance(c, ast.Call) and dotted(c.func) == "mp.RawArray"]
-    ok = len(ra) == 1 and ast.unparse(ra[0].args[0]) == "ctype" and ast.unparse(ra[0].args[1]).replace(" ", "") == "arr.size"
-    dflt = fn.args.defaults
-    ok = ok and len(dflt) == 1 and ast.unparse(dflt[0]) == "ctypes.c_double"
-    ctx.check(ok, "copyToSharedArray allocates arr.size c_double elements", fn)
-    # readers: every initializer view is np.frombuffer(x[0]).reshape(x[1]) with the default (float64) dtype
-    for rel, q in ((SRS, "_mk_par_globals"), (SRS, "_mk_par_globals_ic"), (FDE, "_to_np_array")):
-        f2 = ctx.src.func(rel, q)
-        calls = [c for c in ast.walk(f2) if isinstance(c, ast.Call) and dotted(c.func) == "np.frombuffer"]
-        ok = bool(calls) and all(len(c.args) == 1 and not c.keywords for c in calls)
-        ctx.check(ok, f"{q}: shared buffers are read through default-dtype (float64) np.frombuffer views", f2)
-
-
-def _block_of(st):
-    p = parent(st)
-    for fld in ("body", "orelse", "finalbody"):
-        b = getattr(p, fld, None)
-        if isinstance(b, list) and st in b:
-            return b
-    raise AnchorError("block of statement")
-
-
-# ---------------------------------------------------------------------------
-class _Subst(ast.NodeTransformer):
-    def __init__(self, mp):
-        self.mp = mp   # source text (normalised) -> replacement AST expr
-
-    def generic_visit(self, node):
-        if isinstance(node, ast.expr):
-            key = ast.unparse(node)
-            if key in self.mp:
-                return copy.deepcopy(self.mp[key])
-        return super().generic_visit(node)
-
-    def visit(self, node):
-        if isinstance(node, ast.expr):
-            key = ast.unparse(node)
-            if key in self.mp:
-                return copy.deepcopy(self.mp[key])
-        return super().visit(node)
-
-
-def _subst(stmts, mp):
-    mp2 = {k: ast.parse(v, mode="eval").body for k, v in mp.items()}
-    out = []
-    for s in stmts:
-        s2 = _Subst(mp2).visit(copy.deepcopy(s))
-        out.append(s2)
-    return out
-
-
-def _norm_stmts(stmts, drop_print=True):
-    out = []
-    for s in stmts:
-        if drop_print and isinstance(s, ast.If) and all(
-                isinstance(b, ast.Expr) and isinstance(b.value, ast.Call) and dotted(b.value.func) == "print" for b in s.body) \
-                and not s.orelse:
+    an = analysis(ctx)
+    W = an.world
+    fn = W.func(SRS, "copyToSharedArray")
+    if fn is None:
+        raise AnchorError("copyToSharedArray")
+    dflt = {a.arg: d for a, d in zip(fn.args.args[::-1], (fn.args.defaults or [])[::-1])}
+    ctype_default = len(dflt) == 1 and ast.unparse(next(iter(dflt.values()))).endswith("c_double")
+    leaves = explore(W, SRS, "copyToSharedArray", params={k: C_DOUBLE for k in dflt} if ctype_default else None)
+    ag = Agg(ctx)
+    arr = ("s", fn.args.args[0].arg)
+    for lf in leaves:
+        sim = lf.sim
+        r = lf.ret
+        okret = is_tag(r, "ref") and sim.heap[r[1]].kind == "raw"
+        ag.add("copyToSharedArray returns the RawArray it allocated", okret, fn, None if okret else show(lf.term(r))[:200])
+        if not okret:
             continue
-        if isinstance(s, ast.Expr) and isinstance(s.value, ast.Constant):
-            continue
-        out.append(ast.unparse(s))
-    return out
+        o = sim.heap[r[1]]
+        esc = [e for e in o.events if e.kind == "escape"]
+        ag.add("copyToSharedArray performs no raw byte copy into the shared buffer (no foreign routine is handed the buffer)", not esc,
+               esc[0].node if esc else fn, [e.note for e in esc])
+        st = [e for e in o.events if e.kind == "store"]
+        dts = [d for oid, d, n in sim.views if oid == o.oid]
+        ok = bool(st) and st[-1].sel == () and lf.term(st[-1].value) == arr and all(d in FLOAT64 for d in dts) and bool(dts)
+        ag.add("copyToSharedArray fills the shared buffer by assigning the input to a float64 np.frombuffer view (numpy converts the dtype), "
+               "on every path", ok, st[-1].node if st else fn,
+               None if ok else {"stores": [f"[{', '.join(show(x) for x in e.sel)}] <- {show(e.value)[:80]}" for e in st], "view dtypes": [show(d) if d else "default" for d in dts]})
+        ok = o.meta.get("ctype") == C_DOUBLE and lf.term(o.meta.get("size")) == ("attr", arr, "size")
+        ag.add("copyToSharedArray allocates arr.size c_double elements", ok, fn,
+               None if ok else {"ctype": show(o.meta.get("ctype")), "size": show(o.meta.get("size"))})
+    # every view of a shared buffer anywhere in the simulation is float64, every buffer c_double
+    for q, (rel, f0, K, live, lvs) in an.entries.items():
+        for lf in lvs:
+            sim = lf.sim
+            for oid, d, node in sim.views:
+                ag.add(f"{qualname_of(node) or q}: shared buffers are read through default-dtype (float64) np.frombuffer views", d in FLOAT64, node,
+                       None if d in FLOAT64 else show(d))
+            for o in sim.heap.values():
+                if o.kind == "raw":
+                    ag.add(f"{qualname_of(o.node) or q}: shared buffers are allocated as c_double", o.meta.get("ctype") == C_DOUBLE, o.node,
+                           show(o.meta.get("ctype")))
+    ag.flush()
+
+
+# ------------------------------------------------------------------------------------------------------------------- R5
+def _has_shared(sim, v):
+    for x in subterms(v):
+        if is_tag(x, "ref") and sim.heap[x[1]].kind == "raw":
+            return True
+        if is_tag(x, "dref") and any(_has_shared(sim, y) for y in sim.heap[x[1]].entries.values() if isinstance(y, tuple)):
+            return True
+    return False
+
+
+def _drop(assign, atoms):
+    return {k: v for k, v in assign.items() if k not in atoms}
+
+
+def _empty_read(sim):
+    return [o for o in sim.heap.values() if o.init == EMPTY and o.init_reads]
 
 
 def r5_serial_equals_worker(ctx):
-    # ---- srs: two serial loops (with / without initial-condition add-back)
-    fn = ctx.src.func(SRS, "srs")
-    loops = [n for n in walk_no_nested(fn) if isinstance(n, ast.For) and ast.unparse(n.iter).replace(" ", "") == "range(LF)"
-             and isinstance(n.target, ast.Name)]
-    serial = {}
-    for lp in loops:
-        has_ic = any("icvals" in ast.unparse(s) for s in lp.body)
-        serial["ic" if has_ic else "noic"] = lp
-    if set(serial) != {"ic", "noic"}:
-        raise AnchorError("srs: the two serial frequency loops")
-    # dT of the serial loop is 1/sr; the task tuple carries 1/sr in the same slot
-    for key, lp in serial.items():
-        blk = _block_of(lp)
-        dts = [s for s in blk[: blk.index(lp)] if isinstance(s, ast.Assign) and ast.unparse(s.targets[0]) == "dT"]
-        ok = bool(dts) and ast.unparse(dts[-1].value).replace(" ", "") == "1/sr"
-        ctx.check(ok, f"srs serial loop ({key}): dT = 1/sr", lp)
-    sites = _pool_sites(fn)
-    for w, call in sites:
-        blk = _block_of(w)
-        argdef = [s for s in blk[: blk.index(w)] if isinstance(s, ast.Assign) and ast.unparse(s.targets[0]) == "args"]
-        if not argdef:
-            ctx.error("srs: task argument tuple", w)
-            continue
-        tup = [utext(e) for e in argdef[-1].value.elts]
-        fdef = [s for s in blk[: blk.index(w)] if isinstance(s, ast.Assign) and ast.unparse(s.targets[0]) == "func"]
-        names = [fdef[-1].value.body.id, fdef[-1].value.orelse.id]
-        for wname in names:
-            wfn = ctx.src.func(SRS, wname)
-            j, rest, ust = task_index(wfn)
-            # argument slots: worker unpack names <- tuple expressions
-            ok = len(rest) == len(tup)
-            ctx.check(ok, f"{wname}: unpacks as many task arguments as the parent packs", ust, {"unpacked": rest, "packed": tup})
-            if not ok:
+    an = analysis(ctx)
+    ag = Agg(ctx)
+    for q, (rel, fn, K, live, leaves) in an.entries.items():
+        P = [lf for lf in leaves if lf.parallel]
+        S = [lf for lf in leaves if not lf.parallel]
+        if not P or not S:
+            raise AnchorError(f"{q}: parallel and serial paths ({len(P)} / {len(S)})")
+        # the tests that tell the parallel mode from the serial mode: decided on every path, one way on all parallel paths, the other way on all
+        # serial paths
+        mode = set()
+        for a in set().union(*[set(lf.assign) for lf in leaves]):
+            vp = {lf.assign[a] for lf in P if a in lf.assign}
+            vs = {lf.assign[a] for lf in S if a in lf.assign}
+            if len(vp) == 1 and len(vs) == 1 and vp != vs:
+                mode.add(a)
+        if not mode:
+            raise Unsup(f"{q}: no single test separates the parallel paths from the serial paths")
+        for p in P:
+            ws = "/".join(sorted({wname(L) for L in p.sim.launches})) or "in-process tasks"
+            partners = [s for s in S if compatible(_drop(p.assign, mode), _drop(s.assign, mode))]
+            if not partners:
+                ctx.error(f"{q}: no serial path runs under the conditions of the parallel path with {ws}", fn,
+                          [f"{show(a)[:80]} = {v}" for a, v in p.sim.decisions][:12])
                 continue
-            env = dict(zip(rest, tup))
-            key = "ic" if "stype" in rest else "noic"
-            lp = serial[key]
-            # parent-side meaning of every worker-local name, in the serial loop's vocabulary
-            want = {"coeffunc": "coeffunc", "Q": "Q", "dT": "1/sr", "methfunc": "methfunc", "S": "S", "stype": "stype"}
-            for nm in rest:
-                ok = env[nm] == want.get(nm)
-                ctx.check(ok, f"{wname}: task argument `{nm}` is `{env[nm]}` (the serial loop's {want.get(nm)})", ust)
-            mp = {f"WN_[{j}]": f"wn[{lp.target.id}]", "SIG_": "sig", "ICVALS_": "icvals",
-                  f"SRSmax_[{j}]": f"SRSmax[{lp.target.id}]", f"HIST_[:, :, {j}]": f"resp['hist'][:, :, {lp.target.id}]"}
-            wbody = [s for s in wfn.body if s is not ust]
-            wtxt = _norm_stmts(_subst(wbody, mp))
-            sbody = list(lp.body)
-            # serial: `if getresp: resp['hist'][..] = ...` ; the history worker is selected exactly when getresp
-            stores_hist = "HIST_" in ast.unparse(wfn)
-            sflat = []
-            for s in sbody:
-                if isinstance(s, ast.If) and ast.unparse(s.test) == "getresp" and not s.orelse:
-                    if stores_hist:
-                        sflat.extend(s.body)
-                else:
-                    sflat.append(s)
-            stxt = _norm_stmts(sflat)
-            ok = wtxt == stxt
-            ctx.check(ok, f"{wname} computes exactly the serial loop body ({key}) under WN_=wn, SIG_=sig, ICVALS_=icvals, "
-                          "SRSmax_=SRSmax, HIST_=resp['hist'] (identical expression trees => bit-identical results)", wfn,
-                      None if ok else {"worker": wtxt, "serial": stxt})
-    # ---- fdepsd
-    fn = ctx.src.func(FDE, "fdepsd")
-    lps = [n for n in walk_no_nested(fn) if isinstance(n, ast.For) and "enumerate(Wn)" in ast.unparse(n.iter)]
-    if len(lps) != 1:
-        raise AnchorError("fdepsd: serial loop `for j, wn in enumerate(Wn)`")
-    lp = lps[0]
-    jn, wn = [e.id for e in lp.target.elts]
-    wfn = ctx.src.func(FDE, "_dofde")
-    j, rest, ust = task_index(wfn)
-    sites = _pool_sites(fn)
-    w, call = sites[0]
-    blk = _block_of(w)
-    argdef = [s for s in blk[: blk.index(w)] if isinstance(s, ast.Assign) and ast.unparse(s.targets[0]) == "args"]
-    tup = [utext(e) for e in argdef[-1].value.elts]
-    ctx.check(rest == tup == ["coeffunc", "Q", "dT", "verbose"], "_dofde: task arguments are the parent's (coeffunc, Q, dT, verbose)", ust,
-              {"unpacked": rest, "packed": tup})
-    # bindings proved from the post-pool unpacking: ASV rows -> Amax / SRSmax / Var
-    post = blk[blk.index(w) + 1:]
-    rowmap = {}
-    for s in post:
-        if isinstance(s, ast.Assign) and isinstance(s.value, ast.Subscript) and ast.unparse(s.value.value) == "ASV" \
-                and isinstance(s.value.slice, ast.Constant):
-            rowmap[s.value.slice.value] = s.targets[0].id
-    ok = rowmap == {0: "Amax", 1: "SRSmax", 2: "Var"}
-    ctx.check(ok, "fdepsd: ASV rows 0,1,2 are unpacked as Amax, SRSmax, Var after the pool", w, rowmap)
-    # shapes: BinAmps_ is (LF, nbins)
-    shp = [s for s in blk[: blk.index(w)] if isinstance(s, ast.Assign) and ast.unparse(s.targets[0]) == "BinAmps"]
-    ok = bool(shp) and ast.unparse(shp[-1].value).replace(" ", "") == "(srs.createSharedArray((LF,nbins)),(LF,nbins))"
-    ctx.check(ok, "fdepsd: BinAmps_ has shape (LF, nbins) so BinAmps_.shape[1] == nbins", shp[-1] if shp else w)
-    # initial content of the shared BinAmps equals the serial initial content
-    pre_txt = [utext(s) for s in blk[: blk.index(w)]]
-    ok = "a=_to_np_array(BinAmps)" in pre_txt and "a+=np.arange(nbins,dtype=float)/nbins" in pre_txt
-    ser_blk = _block_of(lp)
-    ser_txt = [utext(s) for s in ser_blk[: ser_blk.index(lp)]]
-    ok2 = "BinAmps=np.zeros((LF,nbins))" in ser_txt and "BinAmps+=np.arange(nbins,dtype=float)/nbins" in ser_txt
-    ctx.check(ok and ok2, "fdepsd: shared and serial BinAmps start from the same zeros + arange(nbins)/nbins", w)
-    ok = any(t == "BinAmps=a" for t in [utext(s) for s in post])
-    ctx.check(ok, "fdepsd: after the pool BinAmps is the shared view the workers scaled in place", w)
-    mp = {f"WN_[{j}]": wn, "SIG_": "sig", f"ASV_[1, {j}]": f"SRSmax[{jn}]", f"ASV_[2, {j}]": f"Var[{jn}]",
-          f"ASV_[0, {j}]": f"Amax[{jn}]", "BinAmps_.shape[1]": "nbins", "BinAmps_": "BinAmps", "Count_": "Count"}
-    wbody = [s for s in wfn.body if s is not ust]
-    wtxt = _norm_stmts(_subst(wbody, mp))
-    stxt = _norm_stmts(list(lp.body))
-    ok = wtxt == stxt
-    ctx.check(ok, "_dofde computes exactly the serial loop body of fdepsd under WN_=Wn, SIG_=sig, ASV_=(Amax,SRSmax,Var), "
-                  "BinAmps_=BinAmps, Count_=Count", wfn, None if ok else {"worker": wtxt, "serial": stxt})
-    if jn != j:
-        ctx.note(f"task index named {j} in worker and {jn} in the serial loop")
+            for s in partners:
+                union = _drop(s.assign, mode)
+                union.update(_drop(p.assign, mode))
+                up, us = dict(union), dict(union)
+                up.update({k: v for k, v in p.assign.items() if k in mode})
+                us.update({k: v for k, v in s.assign.items() if k in mode})
+                if (p.ret is None) != (s.ret is None):
+                    ag.add(f"{q}: the parallel path with {ws} and the serial path leave the function at the same place", False, fn)
+                    continue
+                names = ["<return value>"] if p.ret is not None else sorted(live)
+                other_ok = True
+                for n in names:
+                    if n == "<return value>":
+                        rp, rs = p.ret, s.ret
+                    else:
+                        rp, rs = p.fr.locals.get(n), s.fr.locals.get(n)
+                    if rp is None and rs is None:
+                        continue
+                    if rp is None or rs is None:
+                        if n in an.world.mods[rel].imports or n in an.world.mods[rel].funcs:
+                            continue
+                        ag.add(f"{q}: `{n}`, which the code after the parallel/serial split reads, is bound on both paths [{ws}]", False, fn,
+                               "unbound on the " + ("parallel" if rp is None else "serial") + " path")
+                        continue
+                    vp, vs = p.term(rp, up), s.term(rs, us)
+                    if any(is_tag(x, "poison") for x in subterms(vp)) or any(is_tag(x, "poison") for x in subterms(vs)):
+                        raise Unsup(f"{q}: `{n}` is read after the split but is a loop-local of one arm")
+                    tol = []
+                    ok = equal_mod_alloc(vp, vs, tol)
+                    if ok and tol and (_empty_read(p.sim) or _empty_read(s.sim)):
+                        ok = False
+                    key_obj = _has_shared(p.sim, rp)
+                    if key_obj:
+                        ag.add(f"{q}: `{n}` computed by the tasks {ws} (under the bindings made by initializer/initargs) is the expression tree the "
+                               "serial loop computes => bit-identical", ok, p.sim.launches[0].node if p.sim.launches else fn,
+                               None if ok else diff_text(vp, vs))
+                    elif not ok:
+                        other_ok = False
+                        ag.add(f"{q}: local `{n}` has the same value after the parallel arm ({ws}) and after the serial arm", False, fn, diff_text(vp, vs))
+                ag.add(f"{q}: the other locals read after the split agree between the parallel arm ({ws}) and the serial arm", other_ok, fn,
+                       nontrivial=False)
+                # iteration space
+                for L in p.sim.launches:
+                    loops = [lfm for lfm, st, c in getattr(s.sim, "loops", []) if c[0] == "parent" and lfm.count is not None
+                             and any(lfm.fid in e.frames for e in s.sim.events)]
+                    outer = [l for l in loops if not any(l2.fid != l.fid and any(l2.fid in e.frames and l.fid in e.frames and
+                                                                              e.frames.index(l2.fid) < e.frames.index(l.fid) for e in s.sim.events)
+                                                          for l2 in loops)]
+                    for lo in outer:
+                        a, b = p.term(L.count, up) if L.count is not None else None, s.term(lo.count, us)
+                        if a is None:
+                            continue
+                        if a == b:
+                            ag.add(f"{q}: the tasks of {wname(L)} and the serial loop run over the same index range", True, L.node)
+                        elif comparable_diff(a, b):
+                            ag.add(f"{q}: the tasks of {wname(L)} and the serial loop run over the same index range", False, L.node,
+                                   {"tasks": show(a)[:200], "serial": show(b)[:200]})
+                        else:
+                            ctx.note(f"{q}: task range {show(a)[:60]} and serial range {show(b)[:60]} not compared")
+    ag.flush()
     ctx.assume("scipy.signal.lfilter, numpy reductions and the repo's pure helpers are deterministic functions of their arguments")
-    ctx.assume("user-supplied peak/rolloff callables are pure")
+    ctx.assume("user-supplied peak/rolloff callables and the coefficient routines picked from the srs tables are pure")
+    ctx.assume("the value copied into a float64 shared buffer is the value the serial path hands to lfilter (inputs are real; float64 conversion is exact for them)")
+    ctx.assume("x += y, np.add(x, y, out=x) and x = x + y produce the same float64 array content")
 
 
 RULES = [
@@ -578,20 +505,23 @@ RULES = [
     ("C09-R3", r3_no_other_channel, 20),
     ("C09-R4", r4_lifecycle, 30),
     ("C09-R4b", r4b_shared_buffer_io, 6),
-    ("C09-R5", r5_serial_equals_worker, 20),
+    ("C09-R5", r5_serial_equals_worker, 10),
 ]
 LEVEL = "proof"
-TRUSTED = ["CPython ast", "verifier/c09.py effect/alias analysis", "purity table PURE_CALLS (scipy.signal.lfilter, numpy reductions, cyclecount.findap/rainflow)",
+TRUSTED = ["CPython ast", "verifier/c09_sim.py exact symbolic execution (heap of array objects, views, helper calls followed, pool = fork + initializer + one symbolic task)",
+           "purity of library namespaces numpy/scipy/itertools/builtins without out= (scipy.signal.lfilter, numpy reductions, cyclecount.findap/rainflow)",
            "IEEE determinism of the listed library calls", "multiprocessing delivers each task exactly once"]
-EXPLANATION = ("Bernstein's conditions proved from the source for every schedule and worker count: each worker touches written shared arrays only at "
-               "its own task index on one fixed axis, never mutates read-only inputs or views of them, has no other output channel, results of "
-               "imap_unordered are discarded; the pool lifecycle orders parent writes before and reads after; and every worker body is, under the "
-               "binding established by initializer/initargs, the same expression tree as the serial loop body.")
+EXPLANATION = ("Bernstein's conditions proved from the source for every schedule and worker count: each task touches written shared arrays only at "
+               "its own task index on one fixed axis, never mutates read-only inputs or views of them (through helpers, views and out= alike), has no "
+               "other output channel, results of the pool iterator reach nothing; the pool lifecycle orders parent writes before and reads after, and "
+               "every process global a task reads is bound by the initializer of the same launch; and for every pair of a parallel and a serial path "
+               "under the same conditions the content of every array read afterwards is the same exact expression tree.")
 MANIFEST = {
     "text": "Proved statically for every worker count and completion order (under the stated determinism assumptions): tasks commute (disjoint writes by task index, "
             "read-only inputs, no other channel, results discarded) and each parallel task computes exactly the expression DAG of the serial iteration "
             "(5 worker/loop pairs in srs.py and fdepsd.py), with pool lifecycle ordering. Hence parallel output == serial output bit for bit.",
     "note": "Assumes: scipy.signal.lfilter / numpy reductions / repo pure helpers are deterministic; inputs real; user peak/rolloff callables pure; "
             "multiprocessing runs each task exactly once.",
-    "technique": "static effect/alias analysis (Bernstein conditions) + AST substitution equality between worker bodies and serial loop bodies",
+    "technique": "exact symbolic execution of parent, initializer and one symbolic task over a heap of array objects (effects, aliases, views, helper calls, "
+                 "process globals), Bernstein conditions on the recorded accesses, equality of content terms between parallel and serial paths",
 }
